@@ -321,6 +321,96 @@ fn main() {
                 let keys: Vec<String> = tb.iter().map(|(k, v)| format!("{k:?}={}", v.as_integer().unwrap_or(-1))).collect();
                 out.push_str(&format!("{i} TM {}\n", hex(&keys.join(","))));
             }
+        } else if let Some(rest) = line.strip_prefix("EDIT ") {
+            // an edit history on a parsed toml_edit document: `EDIT <hex text> <op>;<op>;...`, op =
+            // letter + dotted path of hex keys. T: new standard table under the table at the path,
+            // A: push an element to the array of tables at the path (created if absent),
+            // V: new value in the table at the path, X: remove the entry at the path
+            #[cfg(all(feature = "te_parse", feature = "te_display"))]
+            {
+                use toml_edit::{ArrayOfTables, DocumentMut, Item, Table};
+                fn nav<'a>(root: &'a mut Table, path: &[String]) -> Option<&'a mut Table> {
+                    let mut cur = root;
+                    for k in path {
+                        cur = match cur.get_mut(k)? {
+                            Item::Table(t) => t,
+                            Item::ArrayOfTables(a) => {
+                                let n = a.len();
+                                if n == 0 {
+                                    return None;
+                                }
+                                a.get_mut(n - 1)?
+                            }
+                            _ => return None,
+                        };
+                    }
+                    Some(cur)
+                }
+                let (h, ops) = rest.split_once(' ').unwrap_or((rest, ""));
+                let text = unhex(h);
+                if let Ok(mut doc) = text.parse::<DocumentMut>() {
+                    let mut n = 0i64;
+                    for op in ops.split(';').filter(|o| !o.is_empty()) {
+                        n += 1;
+                        let path: Vec<String> = op[1..].split('.').filter(|k| !k.is_empty()).map(unhex).collect();
+                        match &op[..1] {
+                            "T" => {
+                                if let Some(t) = nav(doc.as_table_mut(), &path) {
+                                    let mut nt = Table::new();
+                                    nt.insert("v", toml_edit::value(n));
+                                    t.insert(&format!("new{n}"), Item::Table(nt));
+                                }
+                            }
+                            "V" => {
+                                if let Some(t) = nav(doc.as_table_mut(), &path) {
+                                    t.insert(&format!("val{n}"), toml_edit::value(n));
+                                }
+                            }
+                            "A" => {
+                                if let Some((last, parent)) = path.split_last() {
+                                    if let Some(t) = nav(doc.as_table_mut(), parent) {
+                                        let mut nt = Table::new();
+                                        nt.insert("v", toml_edit::value(n));
+                                        match t.get_mut(last) {
+                                            Some(Item::ArrayOfTables(a)) => a.push(nt),
+                                            Some(_) => {}
+                                            None => {
+                                                let mut a = ArrayOfTables::new();
+                                                a.push(nt);
+                                                t.insert(last, Item::ArrayOfTables(a));
+                                            }
+                                        }
+                                    }
+                                }
+                            }
+                            _ => {
+                                if let Some((last, parent)) = path.split_last() {
+                                    if let Some(t) = nav(doc.as_table_mut(), parent) {
+                                        t.remove(last);
+                                    }
+                                }
+                            }
+                        }
+                    }
+                    let printed = doc.to_string();
+                    let mut tree = String::new();
+                    te::dump_table(doc.as_table(), &mut tree);
+                    out.push_str(&format!("{i} E {}\n", hex(&printed)));
+                    out.push_str(&format!("{i} EB {}\n", hex(&tree)));
+                    // what was printed reads back as the edited tree
+                    let back = match printed.parse::<DocumentMut>() {
+                        Ok(d) => {
+                            let mut s = String::new();
+                            te::dump_table(d.as_table(), &mut s);
+                            if s == tree { "same".to_string() } else { format!("differs {}", hex(&s)) }
+                        }
+                        Err(e) => format!("invalid {}", hex(&e.to_string())),
+                    };
+                    out.push_str(&format!("{i} EP {back}\n"));
+                } else {
+                    out.push_str(&format!("{i} E err\n"));
+                }
+            }
         } else if let Some(spec) = line.strip_prefix("TREE ") {
             let mut p = P { s: spec.as_bytes(), i: 0 };
             let Spec::Table(root) = p.node() else { panic!("root spec") };
